@@ -253,8 +253,8 @@ fn rec_19(c: &str) -> V {
 }
 fn rec_20(c: &str) -> V { reference(c, 16, true) }
 fn rec_21(c: &str) -> V { reference(c, 16, true) }
-fn rec_ref16(c: &str) -> V { reference(c, 16, false) }
-fn rec_ref35(c: &str) -> V { reference(c, 35, false) }
+fn rec_ref16(c: &str) -> V { reference(c, 16, true) }
+fn rec_ref35(c: &str) -> V { reference(c, 35, true) }
 fn rec_23(c: &str) -> V {
     // 3!a[2!n]11x ; days only for NOTICE
     if !all_ascii(c) { return V::Reject("charset=non-ascii"); }
